@@ -167,9 +167,11 @@ def make_env(ses, concrete=None):
         n = ses.scalar("n")
     else:
         from symplyphysics import Quantity
-        xs = [Symbol(f"x{i}", concrete["mkdim"](concrete["Dx"][i]), real=True) for i in range(2)]
-        f = Function("f", [xs[0]], concrete["mkdim"](concrete["Df"]))
-        qs = [Quantity(sp.Rational(concrete["s"][i]), dimension=concrete["mkdim"](concrete["Dq"][i])) for i in range(2)]
+        # leaves listed in concrete["respell"] get the same physical dimension in another spelling (a model fixes exponent vectors, not names)
+        mk = lambda tag, exps: (concrete["mkdim2"] if tag in concrete.get("respell", ()) else concrete["mkdim"])(exps)
+        xs = [Symbol(f"x{i}", mk(f"x{i}", concrete["Dx"][i]), real=True) for i in range(2)]
+        f = Function("f", [xs[0]], mk("f", concrete["Df"]))
+        qs = [Quantity(sp.Rational(concrete["s"][i]), dimension=mk(f"q{i}", concrete["Dq"][i])) for i in range(2)]
         n = sp.Rational(concrete["n"])
     return {"x": xs, "f": f, "q": qs, "n": n}
 
@@ -272,7 +274,8 @@ def check_recipe(r):
             mv = lambda t: str(model_value(m, t))
             model = {"Dx": [[mv(c) for c in to_vec(x.dimension)] for x in env["x"]], "Df": [mv(c) for c in to_vec(env["f"].dimension)],
                      "Dq": [[mv(c) for c in to_vec(q.dimension)] for q in env["q"]], "s": [mv(ses.z(q.scale_factor)) for q in env["q"]],
-                     "n": mv(ses.z(env["n"])), "sx": [mv(ses.z(v)) for v in env.get("sx", [])]}
+                     "n": mv(ses.z(env["n"])), "sx": [mv(ses.z(v)) for v in env.get("sx", [])],
+                     "xv": [mv(ses.z(x)) for x in env["x"]], "label": label}
             ev = lambda fm: bool(z3.is_true(m.eval(fm, model_completion=True)))
             expect = {"wf": ev(sem.wf), "any": ev(sem.anyf), "dim": [mv(c) for c in sem.dim]}
             out.update(verdict="candidate", label=label, model=model, expect=expect, wrap=("diagram" if label.startswith("diagram") else wrap),
@@ -345,44 +348,70 @@ def mkdim(exps):
         if e != 0: d = d * b**e
     return d
 recipe = {recipe!r}; model = {model!r}; expect = {expect!r}; wrap = {wrap!r}
-model["mkdim"] = mkdim
-env = c06.make_env(None, model)
-expr = c06.build(recipe, env)
-if wrap is True: expr = expr[1]
-if wrap == "diagram":
-    rexpr, rdim = collect_expression_and_dimension(expr)
-    reps = {{x: Quantity(sp.Rational(v), dimension=x.dimension) for x, v in zip(env["x"], model["sx"])}}
-    try:
-        q = Quantity(expr.xreplace(reps))
-    except Exception as e:
-        print("REPRODUCED: inference accepts", expr, "with dimension", rdim, "but the quantity substitution is refused:", e); sys.exit(1)
-    print("inferred", rdim, "quantity", q.dimension, "scale", q.scale_factor)
-    if q.scale_factor != 0 and not dimsys_SI.equivalent_dims(rdim.subs({{x: sp.Rational(v) for x, v in zip(env["x"], model["sx"])}}), q.dimension):
-        print("REPRODUCED"); sys.exit(1)
-    sys.exit(0)
-try:
-    if wrap: rdim = Average(expr).dimension
-    else: rexpr, rdim = collect_expression_and_dimension(expr)
-    got = "accepted"
-except (UnitsError, ValueError) as e:
-    got = "refused"; print("error:", e)
-except Exception as e:
-    got = "raised " + type(e).__name__; print("error:", e)
-print("expression:", c06.rstr(recipe), "->", got)
-bad = False
-if expect["wf"]:
-    if got != "accepted": bad = True; print("well-formed by the statement but", got)
-    elif not expect["any"]:
+ENERGY = mkdim(["1", "2", "-2", "0", "0", "0", "0", "0"])
+def mkdim2(exps):
+    # same exponents, spelled through the named derived dimension `energy`: equivalent to mkdim(exps), structurally different
+    return mkdim(exps) * units.energy / ENERGY
+model["mkdim"] = mkdim; model["mkdim2"] = mkdim2
+def attempt(respell):
+    model["respell"] = respell
+    print("-- leaves respelled:", list(respell) or "none")
+    env = c06.make_env(None, model)
+    expr = c06.build(recipe, env)
+    if wrap is True: expr = expr[1]
+    if wrap == "diagram":
+        rexpr, rdim = collect_expression_and_dimension(expr)
+        reps = {{x: Quantity(sp.Rational(v), dimension=x.dimension) for x, v in zip(env["x"], model["sx"])}}
         try:
-            deps = dimsys_SI.get_dimensional_dependencies(rdim)
+            q = Quantity(expr.xreplace(reps))
         except Exception as e:
-            print("REPRODUCED: the inferred dimension", rdim, "is not a dimension the unit system can process:", type(e).__name__, e); sys.exit(1)
-        gd = [sp.nsimplify(next((v for k, v in deps.items() if str(k.name) == str(b.name)), 0)) for b in BASE]
-        if gd != [sp.Rational(x) for x in expect["dim"]]: bad = True; print("inferred dimension", gd, "expected", expect["dim"])
-else:
-    if got == "accepted": bad = True; print("ill-formed by the statement but accepted with dimension", rdim)
-if bad:
-    print("REPRODUCED"); sys.exit(1)
+            print("REPRODUCED: inference accepts", expr, "with dimension", rdim, "but the quantity substitution is refused:", e); return True
+        print("inferred", rdim, "quantity", q.dimension, "scale", q.scale_factor)
+        if q.scale_factor != 0 and not dimsys_SI.equivalent_dims(rdim.subs({{x: sp.Rational(v) for x, v in zip(env["x"], model["sx"])}}), q.dimension):
+            print("REPRODUCED"); return True
+        return False
+    try:
+        if wrap: rdim = Average(expr).dimension
+        else: rexpr, rdim = collect_expression_and_dimension(expr)
+        got = "accepted"
+    except (UnitsError, ValueError) as e:
+        got = "refused"; print("error:", e)
+    except Exception as e:
+        got = "raised " + type(e).__name__; print("error:", e)
+    print("expression:", c06.rstr(recipe), "->", got)
+    bad = False
+    if expect["wf"]:
+        if got != "accepted": bad = True; print("well-formed by the statement but", got)
+        elif not expect["any"]:
+            try:
+                deps = dimsys_SI.get_dimensional_dependencies(rdim)
+            except Exception as e:
+                print("REPRODUCED: the inferred dimension", rdim, "is not a dimension the unit system can process:", type(e).__name__, e); return True
+            gd = [sp.nsimplify(next((v for k, v in deps.items() if str(k.name) == str(b.name)), 0)) for b in BASE]
+            if gd != [sp.Rational(x) for x in expect["dim"]]: bad = True; print("inferred dimension", gd, "expected", expect["dim"])
+        if not bad and not wrap:
+            # the collected expression must have the value of the input (quantities by scale factor, symbols at the model's values)
+            from sympy.physics.units import Quantity as SymQuantity
+            def num(e):
+                e = sp.sympify(e)
+                e = e.xreplace({{q: q.scale_factor for q in e.atoms(SymQuantity)}})
+                e = e.subs({{x: sp.Rational(v) for x, v in zip(env["x"], model.get("xv", []))}})
+                e = e.replace(lambda t: isinstance(t, sp.core.function.AppliedUndef), lambda t: sp.Rational(7, 3))
+                return sp.N(e, 30)
+            try:
+                a, b = num(expr), num(rexpr)
+                print("value of the input", a, " value of the collected expression", b)
+                if a.is_real and b.is_real and abs(a - b) > 1e-12 * (1 + abs(a)): bad = True; print("collected expression differs in value")
+            except Exception as e:
+                print("values not comparable:", type(e).__name__, e)
+    else:
+        if got == "accepted": bad = True; print("ill-formed by the statement but accepted with dimension", rdim)
+    if bad:
+        print("REPRODUCED"); return True
+    return False
+for respell in ((), ("q1",), ("q0",), ("x1",), ("x0",), ("f",)):
+    if attempt(respell):
+        sys.exit(1)
 '''
 
 
